@@ -33,10 +33,13 @@ def check(ctx):
     ok = ok and any(src(x).replace(" ", "") == "(CRLF,LF,CR)" for x in d)
     ctx.check(ok, "T6-eols", pe, "event lines end at CRLF, LF or CR", "")
     resume_rule(ctx)
+    split_crlf(ctx)
     ctx.rule("T1-consume", "event-stream bytes are deleted only after a complete line was found")
     ctx.rule("T1-scan", "line searches cover the whole unconsumed buffer")
     ctx.rule("T1-wait", "a buffer prefix is read only after that many bytes are present")
     _http.delete_discipline(ctx, "T1-consume")
+    ctx.rule("T4-consumers", "bytes are removed from the receive buffers only by the parser primitives")
+    ctx.floor("T4-consumers:sites", _http.buffer_consumers(ctx, "T4-consumers"), 7)
     _http.scan_offsets(ctx, "T1-scan")
     _http.wait_before_read(ctx, "T1-wait")
     defect_scope(ctx, "D-scope", [m for m in E.methods.values()], max_depth=1, floor=5, label="scope: EventSource")
@@ -53,3 +56,50 @@ def resume_rule(ctx):
     ctx.check(formula_equiv(pc, "self.parser"), "T2-resume", nx[0].ast, "EventSource.parse: next(self.parser) under `self.parser` alone",
               "a receive that the extra condition judges uninteresting (same buffer length as before the previous parse, ..) is "
               "skipped: its events, retry and last-event-id are missing or late, depending on how the stream was cut into receives")
+
+
+def split_crlf(ctx):
+    """CR is a proper prefix of CRLF: a line that ends with CR as the last byte received may be half of a CRLF.  parseLine
+    returns it at once (the stream may also really end its lines with CR), so parseEvents keeps one bit of look-ahead state:
+    after such a line, the first byte of the next receive is dropped iff it is LF, and the state is cleared as soon as any byte
+    has been seen."""
+    ctx.rule("T9-crlf", "parseEvents: a LF that arrives right after a line ended by a trailing CR is dropped exactly once; the look-ahead "
+             "flag is cleared by the first byte seen, whatever it is")
+    f = ctx.cls("aio.http.httping", "EventSource").own_method("parseEvents")
+    V = FuncView(ctx, f)
+    cfg = V.cfg
+    nx = V.need([n for n, c in V.calls("next")], "next(lineParser) in parseEvents")
+    dels = [n for n in cfg.nodes if isinstance(n.ast, ast.Delete) and src(n.ast.targets[0]).replace(" ", "") in ("self.raw[:1]", "self.raw[0]", "self.raw[0:1]")]
+    if not dels:
+        ctx.bad("T9-crlf", f, "parseEvents keeps no look-ahead for a CRLF split between CR and LF",
+                "lines are read with eols (CRLF, LF, CR): when a receive ends between the CR and the LF of one CRLF, the CR ends the line and "
+                "the LF that arrives next is read as an empty line - the event is dispatched early or split in two, depending on where "
+                "the stream was cut")
+        return
+    flags = set()
+    for d in dels:
+        for fct in V.facts(d):
+            if fct.isidentifier() and fct not in ("True", "False", "None"):
+                flags.add(fct)
+    ok = len(flags) == 1
+    flag = sorted(flags)[0] if flags else "?"
+    if ok:
+        pc = ("or", [path_condition(V, d, by_value=False) for d in dels])
+        ok = formula_equiv(pc, "%s and self.raw and self.raw[:1] == LF" % flag)
+        clears = [n for n in V.stores(flag) if isinstance(n.ast, ast.Assign) and isinstance(n.ast.value, ast.Constant) and n.ast.value.value is False
+                  and any(w.kind == "test" and isinstance(w.ast, ast.While) and id(n.ast) in {id(x) for x in ast.walk(w.ast)} for w in cfg.nodes)]
+        sets = [n for n in V.stores(flag) if isinstance(n.ast, ast.Assign) and isinstance(n.ast.value, ast.Constant) and n.ast.value.value is True]
+        ok = ok and bool(clears) and formula_equiv(("or", [path_condition(V, c, by_value=False) for c in clears]), "%s and self.raw" % flag)
+        # drop and clear come before the line parser is resumed in the same iteration
+        ok = ok and all(any(x.id in cfg.reachable(d.id) for x in nx) for d in dels + clears) and \
+            not any(d.id in cfg.reachable(x.id, removed_nodes=[w.id for w in cfg.nodes if w.kind == "test" and isinstance(w.ast, ast.While)]) for x in nx for d in dels)
+        # set: the line just returned ended with CR and nothing follows it yet; `tail` is the last byte before resuming the parser
+        ok = ok and bool(sets)
+        for s_ in sets:
+            fs = V.symfacts(s_)
+            ok = ok and "not self.raw" in fs and any(x.replace(" ", "") in ("self.raw[-1:]==CR", "CR==self.raw[-1:]") for x in fs)
+            tl = [n for n in cfg.nodes if isinstance(n.ast, ast.Assign) and src(n.ast.value).replace(" ", "") == "self.raw[-1:]"]
+            ok = ok and bool(tl) and all(any(x.id in cfg.reachable(t.id) for x in nx) for t in tl)
+    ctx.check(ok, "T9-crlf", dels[0].ast, "parseEvents: `%s` set after a line ended by a trailing CR; next receive: drop a leading LF, clear the flag on any byte" % flag,
+              "the look-ahead state is wrong: a LF is dropped when it should not be (flag left set after other bytes arrived) or an empty "
+              "line is read for the LF half of a split CRLF")
